@@ -495,6 +495,7 @@ HeapCase(c) ==
      Chk(st.a \o ":operand-treespecs-unchanged", st.operand_changed = <<>>) \o
      Chk(st.a \o ":inputs-not-mutated", ~st.inputs_mutated /\ ~st.leaf_list_mutated) \o
      Chk(st.a \o ":no-unexpected-error", st.err = "") \o
+     Chk(st.a \o ":treespec-reads-trees-with-its-own-registration", st.own_reg_ok) \o
      (IF Has(st, "leaves_retained") THEN Chk(st.a \o ":no-reference-to-leaves", st.leaves_retained = 0) ELSE <<>>)])
 HeapGc(c) == Chk("cycles-through-metadata-collected", c.metadata_cycles_collected = 3 /\ c.factory_cycle_collected) \o
              Chk("no-refcount-leak", c.class_refcount_delta = 0) \o
